@@ -2,6 +2,7 @@
     src/funcs.rs). *)
 From Coq Require Import List ZArith NArith Bool Floats.SpecFloat.
 From AG Require Import Str F64 Value Json DatePaths DurFmt.
+From AG Require F64Display.
 From AG Require Generated.
 Import ListNotations.
 Open Scope string_scope.
@@ -109,7 +110,7 @@ Definition to_display (v : value) : res str :=
       end
   | VDate ns => match date_form "Display" with Some f => Ok (f ns) | None => Unm end   (* chrono's Debug (DateFmt.v) *)
   | VDur ns => Ok (fmt_dur_debug ns)   (* the derived Debug of chrono's TimeDelta (DurFmt.v) *)
-  | _ => Unm   (* float shortest form *)
+  | VFloat f => Ok (F64Display.f64_display f)   (* Rust's {} for f64: shortest digits, positional (F64Display.v) *)
   end.
 
 Definition is_ascii_str (s : str) : bool := forallb (fun c => (c <? 128)%N) s.
